@@ -52,7 +52,7 @@ func main() {
 
 	maxLen, reps := 40, 1
 	if *tier == "thorough" {
-		maxLen, reps = 80, 5
+		maxLen, reps = 160, 12
 	}
 	counts := []uint32{0, 1, 1<<24 - 1, 1 << 31, 1<<32 - 1}
 	bearers := []uint8{0, 1, 2, 15, 31}
